@@ -131,6 +131,8 @@ def converters(m):
         "rst-directives": lambda: m.create_markdown(plugins=["math", "table", RSTDirective([Admonition(), TableOfContents(), Image(), Figure()])]),
         "colon-directives": lambda: m.create_markdown(plugins=[FencedDirective([Admonition(), TableOfContents()], ":")]),
         "toc-hook": with_hook,
+        "html-table-url": lambda: m.create_markdown(plugins=["table", "url"]),
+        "html-table-url-noescape": lambda: m.create_markdown(escape=False, plugins=["table", "url"]),
         "mistune.html-equivalent": lambda: m.create_markdown(escape=False, plugins=["strikethrough", "footnotes", "table", "speedup"]),
     }
 
@@ -152,16 +154,28 @@ def history_docs(r, k, config=None):
     if config and "directives" in config:
         pool = [d for d in STATEFUL if ("{" in d or ".. " in d or "===" in d or "---" in d or "--\n" in d)]
     for _ in range(k):
-        if r.random() < 0.55:
+        if config == "fenced-directives" and r.random() < 0.4:
+            docs.append(r.choice(FILE_DOCS))      # pages that include the same files, with definitions of their own
+        elif r.random() < 0.55:
             docs.append(r.choice(pool))
         else:
             docs.append(gen_docs.doc(r, plugins=gen_docs.ALL_PLUGINS, directives=r.random() < 0.3, max_blocks=4))
     return docs
 
 
+FILE = "\x00FILE\x00"     # a history entry that begins with this marker is converted with a file context (Markdown.read)
+FILE_DOCS = [FILE + "[home]: /en/\n\n```{include} nav.md\n```\n\n```{toc}\n```\n", FILE + "[home]: /fr/ 'T'\n\n```{include} nav.md\n```\n\n*[HTML]: Hyper\n",
+             FILE + "```{include} nav.md\n```\n\n```{include} heads.md\n```\n\n# own [home]\n", FILE + "```{include} heads.md\n```\n\n```{include} heads.md\n```\n\n```{toc}\n```\n",
+             FILE + "> ```{include} deep.md\n> ```\n\n[inc]\n", FILE + "```{include} part.md\n```\n\n```{include} data.txt\n```\n"]
+
+
 def safe_call(md, d):
     try:
-        out = md(d)
+        if d.startswith(FILE):
+            import worker
+            out = worker.convert_file(md, d[len(FILE):])
+        else:
+            out = md(d)
         return out if isinstance(out, str) else json.dumps(out, sort_keys=True, default=repr)
     except Exception as e:  # noqa
         return "EXC:%s" % type(e).__name__
@@ -302,6 +316,21 @@ def oracle(ctx, extra):
                     fails.append({"input": {"config": "mistune.html / mistune.markdown()", "docs": docs, "doc": d}, "kind": "shared-converter-history",
                                   "expected": [want[:600], w2[:600]], "got": [got[:600], g2[:600]]})
                     break
+                # the plugins argument of the shortcut is any iterable: a list, a tuple, a one-shot generator, in any order of calls
+                # the plugins argument of the shortcut is any iterable: lists and tuples under one cache key, one-shot iterables under another
+                for cfgname, esc, forms in (("html-table-url", True, [lambda: ["table", "url"], lambda: ("table", "url")]),
+                                            ("html-table-url-noescape", False, [lambda: (p for p in ["table", "url"]), lambda: iter(["table", "url"]), lambda: ["table", "url"]])):
+                    w3 = pristine().ref(cfgname, d)
+                    for mkp in forms:
+                        try:
+                            g3 = m.markdown(d, escape=esc, plugins=mkp())
+                        except Exception as e:  # noqa
+                            g3 = "EXC:%s" % type(e).__name__
+                        shared += 1
+                        if g3 != w3:
+                            fails.append({"input": {"config": "mistune.markdown(escape=%s, plugins=<iterable>)" % esc, "docs": docs, "doc": d}, "kind": "shared-converter-history",
+                                          "expected": [w3[:600]], "got": [g3[:600]]})
+                            break
             if len(fails) >= 5:
                 break
     # threads on a shared instance
@@ -335,7 +364,7 @@ def oracle(ctx, extra):
     return {"evaluations": n + shared + tcount, "distinct_nontrivial": n, "failures": fails,
             "rule": "histories of 2-6 documents (55% from a list that exercises reference links, footnotes, abbreviations, "
                     "setext/atx headings with toc hook/directive, images with the RST renderer, nested directives up to the "
-                    "depth limit; 45% generated) on one converter vs a fresh converter per document in a forked pristine process (so module-level leaks show too), for 11 configurations; "
+                    "depth limit; 45% generated; for the fenced-directive configuration 40% pages converted with a file context that include the same Markdown files and define the references those files use) on one converter vs a fresh converter per document in a forked pristine process (so module-level leaks show too), for 11 configurations; "
                     "md.use(plugin) in the middle of a history; the shared mistune.html and cached mistune.markdown(); 8 "
                     "threads on a shared instance with a 10us switch interval; non-trivial = every history (length >= 2)",
             "samples": [json.dumps(history_docs(r, 2))]}
